@@ -264,6 +264,7 @@ pub fn run(ctx: &Ctx) -> Report {
         }
     });
     rep.merge(r);
+    rep.merge(super::mega::run(ctx, "C13", 1500, 60000));
     if ctx.strict() {
         rep.require("err_packets_compared", 1000);
         rep.require("code_kind_round_trips", 800);
